@@ -189,6 +189,22 @@ fn main() {
                 let ok = matches!(&r, Ok((o, s)) if *o == payload && *s);
                 cx.out.case("", &[], &["read-sched".into(), cname.clone(), n.to_string(), nums(src), consumer.to_string(), nums(reqs)], &match &r { Ok((o, s)) => format!("payload-equal={} sig={}", *o == payload, *s as u8), Err(e) => format!("ERR {}", &e[..e.len().min(80)]) }, Some(ok), &format!("read-schedule-{cname}"));
             }
+            // 2b'. armored messages as another implementation or a mail gateway leaves them: CR LF line endings; the reader under the
+            //      same schedules (a piece may end between the CR and its LF)
+            if cfg.armor {
+                let crlf: Vec<u8> = { let mut v = Vec::with_capacity(reference.len() + 64); for b in &reference { if *b == b'\n' { v.push(b'\r'); } v.push(*b); } v };
+                for (src, consumer, reqs) in &reads {
+                    let (r, _) = read_msg(cfg, &pk, SchedBufReader::new(crlf.clone(), src.clone()), *consumer, reqs);
+                    let ok = matches!(&r, Ok((o, s)) if *o == payload && *s);
+                    cx.out.case("", &[], &["read-sched-crlf".into(), cname.clone(), n.to_string(), nums(src), consumer.to_string(), nums(reqs)], &match &r { Ok((o, s)) => format!("payload-equal={} sig={}", *o == payload, *s as u8), Err(e) => format!("ERR {}", &e[..e.len().min(80)]) }, Some(ok), &format!("read-schedule-crlf-{cname}"));
+                }
+                // every two-piece cut of a short armored message
+                if crlf.len() <= 700 { for cut in 1..crlf.len() {
+                    let (r, _) = read_msg(cfg, &pk, SchedBufReader::new(crlf.clone(), vec![cut, crlf.len()]), 0, &[]);
+                    let ok = matches!(&r, Ok((o, s)) if *o == payload && *s);
+                    if !ok || cut % 16 == 0 { cx.out.case("", &[], &["read-sched-crlf".into(), cname.clone(), n.to_string(), nums(&[cut, crlf.len()]), "0".into(), "_".into()], &match &r { Ok((o, s)) => format!("payload-equal={} sig={}", *o == payload, *s as u8), Err(e) => format!("ERR {}", &e[..e.len().min(80)]) }, Some(ok), &format!("read-two-piece-crlf-{cname}")); }
+                } }
+            }
             // 2c. faults: the source of the builder, the sink of the builder, the source of the reader, at every call
             let ncalls = 40usize.min(4 + n / 8);
             let kinds = [std::io::ErrorKind::Other, std::io::ErrorKind::Interrupted, std::io::ErrorKind::WouldBlock, std::io::ErrorKind::UnexpectedEof, std::io::ErrorKind::TimedOut];
